@@ -63,6 +63,8 @@ def run(ctx):
     s = Sib(ctx)
     s.rhf_restricted_vs_unrestricted("overlap")
     s.multislater_restricted_vs_unrestricted()
+    s.multislater_reference_pairing()
+    s.noci_trans_rdm1_symmetry()
     s.ci_flavours_overlap()
     s.cisd_overlap_ratio()
     s.ucisd_overlap_ratio()
